@@ -66,6 +66,14 @@ def cases(rng, tier):
                 zs.append(z); left -= z
             sizes = ".".join(map(str, zs))
         cs.append({"line": f"lst {bs.hex()} {sizes} {rng.choice([1, 1, 2, 3])}", "tags": ["stream", "partial-iteration"]})
+    # init-code sized programs handed to the disassembler in ONE write (more than the 24576-byte contract size limit, more
+    # than typical internal buffer sizes): nothing may be dropped or re-ordered however much arrives at once
+    for j in range(2 if tier == "quick" else 6):
+        if j == 0:
+            bs = bytes([0x5b]) * 0x6000 + bytes.fromhex("61000100")
+        else:
+            bs = b"".join(enc(rng.choice(ops), rng, rng.randrange(5)) for _ in range(rng.choice([9000, 12000])))
+        cs.append({"line": f"lst {bs.hex()}", "tags": ["stream", "one-big-write"], "timeout": 900})
     return cs
 
 
